@@ -92,18 +92,25 @@ CORPUS_SEED = 777
 def build_universe(seed, tier):
     """the seeded universe, followed by the fixed corpus universe (definitions prefixed with K), whose
     types are the ones of the golden corpus (C06)"""
-    from universe import Universe
+    from universe import Universe, stress_defs, Adt, Seq, Array, Sum, Str, Phantom, near_miss_mutants, Prim, Tuple, Def, Range
     n_types, depth, n_defs = tier_params(tier)
     u = Universe(seed, n_types=n_types, max_depth=depth, n_defs=n_defs).build()
     c = Universe(CORPUS_SEED, n_types=40, max_depth=3, n_defs=10, prefix='K').build()
-    from universe import stress_defs, Adt, Seq, Array, Sum, Str, Phantom
     sd = stress_defs('K')
-    st = [Adt(d, [], []) for d in sd if not d.tparams]
+    st = [Adt(d, [], []) for d in sd if not d.tparams and not d.cparams]
     byname = {d.name: d for d in sd}
     st += [Seq('vec', st[0]), Seq('vec', st[1]), Array(st[2], 2), Seq('bs', st[4]), Sum('opt', [st[5]]), Seq('vec', st[7])]
     # the generic wrapper KD5<A> { s: String, a: A, t: u8 } around borrowed slices of over-aligned / tag-aligned items
     st += [Adt(byname['KD5'], [Seq('vec', Adt(byname['KZE2'], [], []))], []), Adt(byname['KD5'], [Seq('vec', Adt(byname['KZ8'], [], []))], []),
            Adt(byname['KD5'], [Seq('bs', Adt(byname['KZ6'], [], []))], [])]
+    # round-4 stress instances: deep items of zero bytes, zero-sized zero-copy items with a unit > 1 (alone and behind a
+    # string), newtypes of zero-copy arrays in sequences, two const parameters, a 128-bit const parameter
+    z0 = Array(Prim('u64'), 0)
+    st += [Seq('vec', Array(Str(), 0)), Seq('bs', Array(Seq('vec', Prim('u8')), 0)), Seq('vec', Adt(byname['KU0'], [], [])),
+           Seq('vec', z0), Adt(byname['KD5'], [Seq('vec', z0)], []), Adt(byname['KD5'], [Seq('vec', Array(Str(), 0))], []),
+           Seq('vec', Adt(byname['KN1'], [], [])), Array(Adt(byname['KN1'], [], []), 3), Seq('bs', Adt(byname['KN1'], [], [])),
+           Adt(byname['KC2'], [], [7, 300]), Adt(byname['KC2'], [], [44, 7]),
+           Adt(byname['KC3'], [], [0x0123456789abcdef]), Adt(byname['KC3'], [], [(1 << 64) + 0x0123456789abcdef])]
     u.corpus_start = len(u.types)
     u.corpus_rust = [t.rust() for t in c.types] + [t.rust() for t in st]
     seen = set(t.rust() for t in u.types)
@@ -122,7 +129,6 @@ def build_universe(seed, tier):
             if t is not None and t.rust() not in seen:
                 seen.add(t.rust()); u.types.append(t)
     # near-miss mutants (C04): for every registered instance of a definition without type parameters
-    from universe import near_miss_mutants, Prim, Tuple
     counter = [0]
     u.mutant_pairs = []      # (index of the original, index of the mutant, kind)
     done = set()
@@ -146,7 +152,6 @@ def build_universe(seed, tier):
                 seen.add(at.rust()); u.types.append(at)
                 u.mutant_pairs.append((i, len(u.types) - 1, 'const-value-changed'))
     # the two recorded hash findings, as concrete pairs (see known_findings.json)
-    from universe import Def
     ca = Def('a', False, 'none', [], 1, [], [{'name': 'N', 'prim': 'u16', 'default': None}], [('a', 'named', [('b', ('ty', Tuple(Prim('u8'), 3)))])])
     cb = Def('S', False, 'none', [], 1, [], [], [('S', 'named', [('N', ('ty', Tuple(Prim('u8'), 1))), ('a', ('ty', Prim('u8'))), ('b', ('ty', Prim('u8')))])])
     ca.module, cb.module = 'colla', 'collb'
@@ -175,8 +180,13 @@ def build_universe(seed, tier):
             u.mutant_pairs.append((a, b, k))
     # arrays whose items own heap memory in both modes (partially built arrays must be released on error and on panic)
     add(Array(Seq('bs', Str()), 3)); add(Array(Seq('vec', Seq('vec', Prim('u16'))), 2))
+    # const parameters: the two KC2 instances differ in both values (A, B) = (7, 300) / (44, 7); the two KC3 instances
+    # differ only above bit 63 of a 128-bit const value
+    rix = {t.rust(): k for k, t in enumerate(u.types)}
+    for a, b, kind in (('KC2<7, 300>', 'KC2<44, 7>', 'const-values-changed'), ('KC3<81985529216486895>', 'KC3<18528729602926038511>', 'const-high-bits-changed')):
+        if a in rix and b in rix:
+            u.mutant_pairs.append((rix[a], rix[b], kind))
     # witnesses of the recorded finding KF-C07-1 / KF-C12-1: an alignment unit that is not a power of two (3)
-    from universe import Range
     w1 = Range('t', Array(Prim('u8'), 3)); w2 = Seq('vec', Range('t', Array(Prim('u8'), 3)))
     for w in (w1, w2):
         w.known = ('C07', 'C12')
